@@ -8,6 +8,7 @@ import warnings
 
 warnings.filterwarnings('ignore')
 import numpy as np  # noqa: E402
+from guard import guarded  # noqa: E402
 from qce_circuit.library.repetition_code.circuit_constructors import construct_repetition_code_multi_round_circuit  # noqa: E402
 from qce_circuit.library.repetition_code.circuit_components import RepetitionCodeDescription  # noqa: E402
 from qce_circuit.language.intrf_declarative_circuit import InitialStateContainer, InitialStateEnum  # noqa: E402
@@ -69,15 +70,15 @@ def main(maxround, maxlen, dmax, out, seed, nrandom):
     for rounds in lists:
         for d in range(2, dmax + 1):
             bits = [rnd.randint(0, 1) for _ in range(d)]
-            rows.append(one(rounds, d, bits))
+            rows.append(guarded(one, rounds, d, bits, _label='rounds=%s d=%d' % (list(rounds), d)))
     for _ in range(nrandom):
         n = rnd.randint(1, 4)
         rounds = rnd.sample(range(0, 9), n)
         d = rnd.randint(2, 4)
-        rows.append(one(rounds, d, [rnd.randint(0, 1) for _ in range(d)]))
+        rows.append(guarded(one, rounds, d, [rnd.randint(0, 1) for _ in range(d)], _label='rounds=%s d=%d' % (list(rounds), d)))
     # long blocks (deep circuit graphs): the counts a real experiment uses are far beyond the enumerated universe
     for rounds, d in ([([2, 60], 2), ([70], 3)] if nrandom <= 10 else [([2, 60], 2), ([70], 3), ([120, 0, 3], 2), ([1, 90], 4)]):
-        rows.append(one(rounds, d, [rnd.randint(0, 1) for _ in range(d)]))
+        rows.append(guarded(one, rounds, d, [rnd.randint(0, 1) for _ in range(d)], _label='rounds=%s d=%d' % (list(rounds), d)))
     json.dump(rows, open(out, 'w'))
     print(len(rows))
 
